@@ -47,9 +47,9 @@ func readPlan(path string) []step {
 	return out
 }
 
-func pattern(rng *rand.Rand, pct int) []int {
+func pattern(rng *rand.Rand, pct int, max int) []int {
 	out := []int{}
-	for n := 1; n <= 2; n++ {
+	for n := 1; n <= max; n++ {
 		if rng.Intn(100) < pct {
 			out = append(out, n)
 		}
@@ -71,7 +71,7 @@ func randPlan(rng *rand.Rand, nk, n int) []step {
 		if rng.Intn(2) == 0 { // same-key operations pile up behind a gated one
 			k = hot
 		}
-		out = append(out, step{Op: opNames[rng.Intn(len(opNames))], K: k, F: pattern(rng, failPct), G: pattern(rng, gatePct)})
+		out = append(out, step{Op: opNames[rng.Intn(len(opNames))], K: k, F: pattern(rng, failPct, 2), G: pattern(rng, gatePct, 3)})
 	}
 	return out
 }
@@ -112,7 +112,7 @@ func runStress(w *tr.W, rng *rand.Rand, cfg config, threads, per int) {
 		go func() {
 			defer wg.Done()
 			for i := 0; i < per; i++ {
-				wd.submit(opNames[r.Intn(len(opNames))], r.Intn(cfg.NK)+1, pattern(r, failPct), nil)()
+				wd.submit(opNames[r.Intn(len(opNames))], r.Intn(cfg.NK)+1, pattern(r, failPct, 2), nil)()
 				if r.Intn(4) == 0 {
 					runtime.Gosched()
 				}
